@@ -249,4 +249,24 @@ theorem fit_emits_valid_payload_cut (S : Schema) (hS : S ∈ domFamilySchemas) (
     (family_textStableC _ (domFamily_sub _ hS)) (family_closable _ (domFamily_sub _ hS)) doc f t src a b sl hsrc
     hcut hv hattrs hrun st h
 
+/-- `PM.C11.fit_replace_recorded_valid` with its schema guards discharged for the bundled schema family -/
+theorem fit_replace_recorded_valid (S : Schema) (hS : S ∈ domFamilySchemas) (doc : Node) (f t : Nat)
+    (sl : Slice) (hloose : sl.looseValid S = true) (hv : C01.Valid S doc) (hattrs : S.nodeAttrsOK doc = true)
+    (hrun : unplacedWfRun S doc f t sl = true) (F T : Nat) (sl' : Slice) (b : Bool)
+    (h : replaceStep S doc f t sl = .ok (some (.replace F T sl' b))) (doc' : Node)
+    (ha : S.apply (.replace F T sl' b) doc = .ok doc') :
+    C01.Valid S doc' :=
+  PM.C11.fit_replace_recorded_valid S (family_det _ (domFamily_sub _ hS))
+    (family_fillersOK _ (domFamily_sub _ hS)) (family_wrapOK _ (domFamily_sub _ hS))
+    (family_labelsOK _ (domFamily_sub _ hS)) (family_leafOk _ (domFamily_sub _ hS))
+    (family_textStableC _ (domFamily_sub _ hS)) (family_closable _ (domFamily_sub _ hS)) doc f t sl hloose hv
+    hattrs hrun F T sl' b h doc' ha
+
+/-- `PM.C11.delete_recorded_valid` with its schema guards discharged for the bundled schema family -/
+theorem delete_recorded_valid (S : Schema) (hS : S ∈ familySchemas) (doc : Node) (f t : Nat)
+    (hv : C01.Valid S doc) (hattrs : S.nodeAttrsOK doc = true) (st : Step)
+    (h : replaceStep S doc f t Slice.empty = .ok (some st)) (doc' : Node) (ha : S.apply st doc = .ok doc') :
+    C01.Valid S doc' :=
+  PM.C11.delete_recorded_valid S (family_det _ hS) (family_leafOk _ hS) doc f t hv hattrs st h doc' ha
+
 end PM.Family.C11
